@@ -356,6 +356,13 @@ func checkC10(c *Ctx, r *Report) {
 
 	// (e) typestate
 	checkFreshLayers(c, r, "fresh-layers")
+
+	// retrying ends with "the first valid response": a reply is one only if it answers the
+	// caller's command (rule shared with C11)
+	checkReplyMatchesRequest(c, r)
+
+	// a command whose retries were given up is a failed command (rule shared by C04, C10, C13)
+	checkRetryFailureReturned(c, r)
 }
 
 // rejectSig summarises the decisions on a path that are not the standard ones.
